@@ -16,6 +16,7 @@ EXPLANATION = (
     "poisoned delta is never merged nor read; (R8) key provenance: every observable store location an applier mutates is "
     "keyed by a value derived from the operation alone (a store-derived key is an unattributable location). "
     "'A rewrite inside its declaration is never flagged' is NOT decided."
+    ' Round 2: attribution extraction tolerates construct-then-mutate shapes; the footprint-guard lookup key identifies one rewrite (origin/rule identity + scope) on both the collecting and the attaching side.'
 )
 ASSUMPTIONS = ["enforcement cfg is active (dev profile / footprint_enforce_release)", "BTreeSet::contains is correct"]
 FLOOR = 60
